@@ -21,6 +21,17 @@ NA = {
 PENDING = "static rule designed in DESIGN section 3; check not yet registered (under construction)"
 
 CHECKS = {
+ "C19": {
+  "text": "Decides on every path of the current sources the shape that makes replacement atomic: output path reaches "
+          "only the mtime test / gentle_overwrite / return value; only reviewed functions call filesystem-mutating "
+          "primitives; the writer creates its temp file in the output's directory, checks write_all, then persists; "
+          "the equal-content branch cannot fail and every other branch returns the writer's Result. Covers all crash "
+          "points and interleavings at once because the only operation changing what the path names is rename(2).",
+  "note": "Trusts POSIX rename(2) atomicity on one filesystem, tempfile's O_EXCL naming, rustc MIR construction and "
+          "tables/fs_writers.json. Durability is out of scope. Value flow is local-level and over-approximate.",
+  "technique": "MIR path rules (must-pass-through/dominance, ?-polarity) + value flow + who-may-call table",
+  "design": "3.2",
+ },
  "C20": {
   "text": "Exhaustive static comparison of every operator table harvested from the current sources "
           "(HIR literal arrays, MIR dispatch of both dialects, version selectors, step-machine and helper "
